@@ -202,8 +202,8 @@ MALFORMED = ['<p tal:content="x">unclosed', '<p tal:define="x">bad</p>', '<b><p 
 # ----------------------------------------------------------------------------
 # cases
 # ----------------------------------------------------------------------------
-def make_case(rng, idx, maxdepth, hostile=True, structure=True, metal=True, py=None, lib_prob=0.3, want=()):
-    opts = talgen.GenOpts(maxdepth=maxdepth, structure=structure, metal=metal, py=py)
+def make_case(rng, idx, maxdepth, hostile=True, structure=True, metal=True, py=None, lib_prob=0.3, want=(), only=None):
+    opts = talgen.GenOpts(maxdepth=maxdepth, structure=structure, metal=metal, py=py, only=only)
     lib_nodes, libm = None, []
     if metal and rng.random() < lib_prob:
         lib_nodes, libm = talgen.gen_template(rng, opts, nmacros=rng.choice([1, 2]), macro_prefix="q", self_path="lib/")
@@ -414,3 +414,28 @@ def k_out(prop, name, rng, n):
             coq_s(tag), coq_pairs(atts), coq_s(v), coq_s(row[0]), coq_s(row[1]), coq_s(row[2]), coq_s(row[3]), coq_s(row[4])))
     mism, err, nsh = coq_eval(prop, name, K_IMPORTS, "chk_out", lits, shard=500, pre=K_PRE)
     return mism, err, nsh, inputs, r["res"]
+
+
+# ----------------------------------------------------------------------------
+# K: tree-walking specification / data VM vs the real expansion (stage 1 statements)
+# ----------------------------------------------------------------------------
+STAGE1 = ("condition", "content", "replace", "attributes", "omit-tag")
+
+
+def k_spec(prop, name, rng, n, maxdepth, shard=100):
+    cases = []
+    for i in range(n):
+        case, nodes, lib = make_case(rng, i, maxdepth, metal=False, lib_prob=0.0, want=["prog", "evals"], only=STAGE1)
+        cases.append(case)
+    res = run_cases(cases)
+    lits, src, skipped = [], [], 0
+    for case, r in zip(cases, res):
+        if "compile_exc" in r or r.get("exc") or "evals" not in r or len(r["evals"]) >= 3000:
+            skipped += 1
+            continue
+        tbl = tlist(("((%s, %s), %s)" % (coq_s(e), coq_pairs(o), coq_cval(v)) for e, o, v in r["evals"]),
+                    "(str * list (str * str)) * cval")
+        lits.append("(%s, (%s, %s))" % (coq_program(r["prog"]["main"]), tbl, coq_s(r["out"])))
+        src.append({"template": case["main"], "context": case["ctx"], "output": r["out"]})
+    mism, err, nsh = coq_eval(prop, name, K_IMPORTS, "chk_spec", lits, shard=shard, pre=K_PRE)
+    return mism, err, nsh, src, skipped
